@@ -136,6 +136,29 @@ const kitchenYAML = `types:
     - name: ded
       type:
         namedType: __untyped_deduced_
+    - name: ia
+      type:
+        map:
+          fields:
+          - name: host
+            type:
+              scalar: string
+        elementRelationship: atomic
+    - name: ib
+      type:
+        map:
+          fields:
+          - name: portn
+            type:
+              scalar: numeric
+        elementRelationship: atomic
+    - name: il
+      type:
+        list:
+          elementType:
+            scalar: string
+          elementRelationship: associative
+        elementRelationship: atomic
     - name: pres
       type:
         namedType: pres
